@@ -45,6 +45,7 @@ func run(e *Env) error {
 					return err
 				}
 				p.EmptyBalancesFirst = k == 0
+				p.SetterSweep = k == 0 && pi == 3
 				p.Run(e.N(10, 30))
 				okAll := true
 				for _, st := range p.Steps {
